@@ -387,7 +387,7 @@ def r03i(P, R):
         # __typename meta field on all three
         for k in COMPOSITE & set(tab):
             pv = Prov(d)
-            ok = any(x.get("k") == "Path" and x.get("name") == "meta_field" for x in subnodes(tab[k]["body"]))
+            ok = has_call(pv.atoms(tab[k]["body"]), "get_typename_meta_field")
             R.check("R03-i", "typename:" + k, ok, "__typename is selectable on %s" % k, "%s types do not get the __typename meta field" % k, loc=d.loc())
     # the two selection-set rules use the same predicate
     for fname, variant in (("check_selection_set", "SelectionOnInvalidType"), ("check_selection_field", "MustSpecifySelectionSet")):
